@@ -258,9 +258,18 @@ def check_property(pid, tier, seed):
             if os.path.exists(corpus_file):
                 lines += [l.strip() for l in open(corpus_file) if l.strip().startswith("(")]
             ncorpus = len(lines)
-            kf_cases = [k for k in known["findings"] if k["property"] == pid and k["family"] == fam]
-            lines += [k["case"] for k in kf_cases]
-            nkf = len(kf_cases)
+            # recorded, unrepaired defects: each replay runs alone (some kill the process)
+            for k in [k for k in known["findings"] if k["property"] == pid and k["family"] == fam]:
+                kc = normalise(fam, [k["case"]])[0]
+                ke = run_model([kc], timeout=120)[0]
+                ko = run_impl(fam, [kc], timeout=120)[0]
+                cov["evaluations"] += 1
+                if families.matches_signature(k, ke, ko):
+                    known_lines.append("KNOWN-FINDING: property=%s %s" % (pid, k["what"]))
+                else:
+                    notes.append("known finding %s no longer reproduces (observed %s)" % (k.get("id", "?"), ko[:120]))
+            nkf = 0
+            kf_cases = []
             rc, out = sh([HARNESS, "gen", fam, str(seed), str(n), tier], 1200, env=GOENV)
             gen = [l for l in out.split("\n") if l.startswith("(")]
             if rc != 0 or len(gen) < n:
